@@ -16,6 +16,9 @@ every collection (entry of the next allocation) and at the end of the run:
      garbage, and vectors owned by a fiber grow once)
   6. under the shipped byte threshold policy next_gc == 2 x live bytes after every collection
   7. when the VM is dropped every block has been released exactly once (arena empty)
+  9. under the shipped byte threshold policy the byte count does not stay above the threshold for hundreds of allocations
+     without a collection (also in phases that allocate no object at all); invariant 2 is additionally evaluated at the
+     entry of every n-th allocation, not only after collections
   8. a program that ends normally leaves no temporary root behind: the number of temporary roots at the end of
      the run equals the number right after VM start-up (natives push and pop them in pairs, also on error paths)
 """
@@ -107,6 +110,8 @@ class C20(Check):
             plan.append(("generated", number))
         for number in range(300 if tier == "quick" else 12000):
             plan.append(("steady", number))
+        for number in range(60 if tier == "quick" else 3000):
+            plan.append(("nonobject", number))
         return plan
 
     def runs(self, tier):
@@ -130,6 +135,18 @@ class C20(Check):
                     "uniq": rng.randint(0, 8), "phases": rng.randint(90, 140),
                     "nursery": rng.choice([None, 2, 8, 64]), "arena": schedules.random_policy(rng, 0.5),
                     "channels": False, "label": "churn-loop"}
+        if entry[0] == "nonobject":
+            # a phase that allocates no object at all (fibers, stacks, frames and waiters only; numbers as arguments): the
+            # shipped byte threshold policy still has to collect, the dead fibers are garbage
+            rounds = rng.randint(800, 3000)
+            lines = ["fn noop(a, b) { a + b }", "fn sink(c) { while true { <- c; } }", "let TICK = chan();", "launch sink(TICK);",
+                     "let total = 0;",
+                     "for i in %d.times() { launch noop(i, %d); TICK <- 0; total = total + 1; }" % (rounds, rng.randint(1, 9)),
+                     "print(total);"]
+            program = workloads.program("nonobject-phase", lines)
+            return {"kind": "books", "program": program, "label": program["name"],
+                    "gc": schedules.native(rng.choice([1 << 12, 1 << 14, 1 << 16])), "arena": schedules.random_policy(rng, 0.5),
+                    "acct_every": rng.choice([0, 0, 97])}
         if entry[0] == "books":
             program = self.programs[entry[1]]
         else:
@@ -139,8 +156,10 @@ class C20(Check):
             # explicit double-full collections at seeded points
             points = sorted(set(self.startup + rng.randrange(0, 120) for _ in range(rng.randint(1, 5))))
             gc = schedules.points([(point, schedules.FULL_TWICE) for point in points])
+        # besides the quiescent points after collections, the books are also compared at the entry of every n-th allocation
         return {"kind": "books", "program": program, "label": program["name"], "gc": gc,
-                "arena": schedules.random_policy(rng, 0.5)}
+                "arena": schedules.random_policy(rng, 0.5),
+                "acct_every": 0 if program.get("heavy") else rng.choice([0, 1, 7, 31])}
 
     def judge(self, ctx, case):
         if case["kind"] == "steady":
@@ -165,6 +184,8 @@ class C20(Check):
                 clause = "intern table is not exactly the live strings after a full collection"
             elif "directly after a full collection" in message or "second full collection" in message:
                 clause = "second full collection in a row was not idle"
+            elif "above the collection threshold" in message:
+                clause = "byte threshold exceeded without a collection"
             elif "next_gc" in message:
                 clause = "next collection threshold is not twice the live size"
             else:
@@ -189,6 +210,8 @@ class C20(Check):
         job["arena"] = case["arena"]
         job["acct"] = True
         job["final_gc"] = True
+        job["acct_every"] = case.get("acct_every", 0)
+        job["watch_from"] = self.startup
         result = ctx.run(job)
         outcome = {"jobs": 1, "violations": [], "signatures": [], "counters": {}}
         counters = outcome["counters"]
